@@ -392,6 +392,21 @@ pub const TEMPLATES: &[Template] = &[
     ..T0
   },
   Template {
+    name: "shadow-global-util",
+    langs: JS,
+    severity: "info",
+    message: "call with a string somewhere (local util shadows the global one)",
+    rule: "  matches: call-with-shadowed\n",
+    utils: &[
+      ("g-literal", "    kind: string\n"),
+      ("call-with-shadowed", "    kind: call_expression\n    has:\n      stopBy: end\n      matches: g-literal\n"),
+    ],
+    needs_utils: &["g-literal"],
+    valid: &["foo(1)"],
+    invalid: &["baz(\"s\")"],
+    ..T0
+  },
+  Template {
     name: "global-literal-call",
     langs: JS,
     severity: "info",
@@ -701,7 +716,14 @@ pub fn instantiate(t: &Template, lang: &str, suffix: &str) -> RuleSpec {
     }
     s
   };
-  let own = |xs: &[(&str, &str)]| xs.iter().map(|(k, v)| (k.to_string(), v.to_string())).collect::<Vec<_>>();
+  let own = |xs: &[(&str, &str)]| {
+    xs.iter()
+      .map(|(k, v)| {
+        let k = if k.starts_with("g-") { format!("{k}-{tag}") } else { k.to_string() };
+        (k, fixrefs(v))
+      })
+      .collect::<Vec<_>>()
+  };
   RuleSpec {
     id,
     language: lang.to_string(),
